@@ -113,6 +113,7 @@ def rand_table(rng, sep, hostile=0.35):
     header = []
     while len(header) < ncol:
         h = S.rand_name(rng, {'xml': True}) if rng.random() < 0.7 else (rand_cell(rng, sep, hostile) or 'h')
+        h = h.lstrip('\ufeff') or 'h'          # a leading U+FEFF of the first name is indistinguishable from a BOM
         if h not in header:
             header.append(h)
     rows = [[rand_cell(rng, sep, hostile) for _ in header] for _ in range(rng.randrange(0, 6))]
